@@ -3,5 +3,7 @@ CONSTANTS
   MaxDepth = 2
   SampleSize = 2500
   NegUnionFlipsEach = FALSE
+  FalsyObjs = {}
+  OperandTruthFilter = FALSE
 SPECIFICATION Spec
 CONSTRAINT Emit
